@@ -4,7 +4,9 @@ from .terms import Ctx, num, show, lin_add, lin_sub, lin_scale
 from .common import (P, F, SIZE, GT, effects, callee_path, call_args, find_argmax, effective_guards, entry_guards, forwards_to,
                      ctor_summary, in_macro, OP_OF_TRAIT, single_expr_body, _resolve, is_abs_term, facts_x, subst_term, reachable_fns,
                      ordered_cmps_on_elements, NE)
-from .guards import for_range, facts, prove_ge0, prove_lt, prove_le, cond_atoms
+from .guards import facts, prove_ge0, prove_lt, prove_le, cond_atoms
+from .guards import for_range as raw_for_range
+from .common import for_range_total as for_range
 from .c01 import rule_magnitude
 
 LEVEL = "other"
@@ -288,8 +290,22 @@ def run(rep, pdb, tier):
                     kq = rk[0]
                     okb = sub[0].value == ("op", "*", ("idx", au, ("tup", i, kq)), ("idx", x, lin_add(kq, i))) and rk[1] == num(1)
             xdef = c2.def_term(x)
-            ok = oksw and okfw and okb and xdef == P(1)
-            det = "exchange replay=%s multiplier replay (same offset j-k-1)=%s back substitution on au=%s x starts as b.clone()=%s" % (oksw, okfw, okb, xdef == P(1))
+            # the back-substitution window grows by one per row up to the full compact width m1+m2+1 (U has m1+m2
+            # super-diagonals after the fill-in caused by row exchanges), starting from 1
+            okwid = False
+            if bs:
+                from .guards import cond_atoms as _ca
+                grow = [n_ for n_ in walk(bs[0].loops[0]["body"]) if n_.get("k") == "If" and n_.get("else") is None]
+                for g_ in grow:
+                    at = _ca(c2, g_["cond"], True)
+                    incs = [q for q in effects(pdb, c2, g_["then"]) if q.kind == "assignop" and q.op == "+=" and q.value == num(1)]
+                    if len(at) == 1 and at[0][0] == "cmp" and at[0][1] == "<" and len(incs) == 1 and at[0][2] == incs[0].target and at[0][3] == MM:
+                        lvar = incs[0].target
+                        resets = [q for q in es if q.kind == "assign" and q.target == lvar and q.value == num(1) and _pos(q.node) < _pos(bs[0].loops[0])]
+                        rk_ = for_range(c2, sub[0].loops[1]) if okb else None
+                        okwid = bool(resets) and rk_ is not None and rk_[2] == lvar
+            ok = oksw and okfw and okb and xdef == P(1) and okwid
+            det = "exchange replay=%s multiplier replay (same offset j-k-1)=%s back substitution on au=%s window grows 1..m1+m2+1=%s x starts as b.clone()=%s" % (oksw, okfw, okb, okwid, xdef == P(1))
         rep.add("solve-replay", rule, ok, fn["body"], det, where=loc(fn["body"]))
     rep.floor("index-map/", 3)
     rep.floor("layout/", 2)
